@@ -48,6 +48,7 @@ def explore(chk):
             ops["text"] = [b.add("sami.text", "0", capio_nodes(n)) for (_, _, n, _) in caps]
         elif wname == "webvtt":
             ops["text"] = [b.add("vtt.groups", capio_nodes(n)) for (_, _, n, _) in caps]
+            ops["vttdoc"] = b.add("vtt.write", capio.enc_langs(list(abstract.values())))       # the whole document (no layouts, no caption styles)
         elif wname == "srt":
             ops["doc"] = b.add("srt.write", capio.enc_langs(list(abstract.values())))
         else:
@@ -116,6 +117,8 @@ def explore(chk):
         # ---- M: correspondence on the writers' own text functions
         if out is None:
             continue
+        if "vttdoc" in ops and core.dec(out[ops["vttdoc"]]) != doc:
+            chk.correspondence_failure(dict(case, model=core.dec(out[ops["vttdoc"]])), "webvtt writer (whole document): implementation and model differ")
         if "doc" in ops:
             if core.dec(out[ops["doc"]]) != doc:
                 chk.correspondence_failure(dict(case, model=core.dec(out[ops["doc"]])), "%s writer: implementation and model differ" % wname)
